@@ -65,6 +65,38 @@ pub fn call(letter: &str) -> (String, Vec<u8>) {
             };
             ("parse + re-serialise stereo 12-bit bs48".into(), out)
         }
+        "M" => {
+            // a header write that fails part-way (a sample number the header cannot carry), then nothing else:
+            // the *next* call of the history must not see anything of it
+            use flacenc::component::{ChannelAssignment, FrameHeader, FrameOffset};
+            let mut out = b"M:".to_vec();
+            if let Ok(mut h) = FrameHeader::new(192, ChannelAssignment::Independent(2), 16, 44100, FrameOffset::Frame(3)) {
+                h.set_frame_offset(FrameOffset::StartSample(1 << 36));
+                let mut sink = ByteSink::new();
+                out.extend(format!("{}", h.write(&mut sink).is_ok()).bytes());
+                out.extend_from_slice(sink.as_slice());
+            }
+            ("failing header write (sample number 2^36)".into(), out)
+        }
+        "N" => {
+            // a stream written to a user sink that fails in the middle of the second frame
+            let b = {
+                let g = Geometry { ch: 2, bps: 16, rate: 44100, bs: 64, n: 200 };
+                let mut rng = gen::rng_for(9, 4711);
+                let chans = gen::signal(&mut rng, "sine", "near", 2, 16, 200);
+                match enc::encode(&d(64), VecSource::new(&g, gen::interleave(&chans)), &Mode::St) {
+                    Outcome::Ok(s) => {
+                        let mut u = crate::sink::UserSink::new(Some(120), false);
+                        let r = s.write(&mut u).is_ok();
+                        let mut v = format!("N:{r}:").into_bytes();
+                        v.extend(u.bytes());
+                        v
+                    }
+                    _ => b"N:encode failed".to_vec(),
+                }
+            };
+            ("stream write into a sink failing at operation 120".into(), b)
+        }
         _ => ("?".into(), vec![]),
     }
 }
@@ -92,7 +124,7 @@ pub fn cmd_history(a: &Args) {
     let out = PathBuf::from(a.get("out", "/verif/.work/c10"));
     let extra_random = a.num("random", 0) as usize;
     let seed = a.num("seed", 1);
-    let letters: Vec<String> = ["A", "B", "C", "D", "E", "F", "G", "H", "I", "J", "K", "L"].iter().map(|s| s.to_string()).collect();
+    let letters: Vec<String> = ["A", "B", "C", "D", "E", "F", "G", "H", "I", "J", "K", "L", "M", "N"].iter().map(|s| s.to_string()).collect();
     let mut lines = vec![];
     // F[c]: every call alone on a fresh thread (twice, on two different fresh threads)
     let mut reference: BTreeMap<String, String> = BTreeMap::new();
